@@ -62,8 +62,8 @@ var (
 	reHeaderClosure = regexp.MustCompile(`^closure\s+([\w.]+#[\d.]+)\s*\(([^)]*)\)\s*(?:\(([^)]*)\))?\s*$`)
 	reHeaderTC      = regexp.MustCompile(`^type-contract\s+(\S+)\s*\(([^)]*)\)\s*(?:\(([^)]*)\))?\s*$`)
 	reHeaderExtern  = regexp.MustCompile(`^extern\s+(\(\*?[\w./]+\)\.\w+|[\w./]+)\s*\(([^)]*)\)\s*(?:\(([^)]*)\))?\s*$`)
-	reHeaderModel   = regexp.MustCompile(`^model\s+(\w+)\s*\(([^)]*)\)\s*:=\s*(.*)$`)
-	reClause        = regexp.MustCompile(`^(requires|ensures|modifies|ghost|refines|co|invariant|panics-only-if|assume|decreases|loop|trusted|abstracted|reveal|props|havoc)\b(?:\[([^\]]+)\])?\s*(.*)$`)
+	reHeaderModel   = regexp.MustCompile(`^(?:model|pred)\s+(\w+)\s*\(([^)]*)\)\s*:=\s*(.*)$`)
+	reClause        = regexp.MustCompile(`^(requires|ensures|modifies|ghost|refines|co|captured-inv|invariant|panics-only-if|assume|decreases|loop|trusted|abstracted|reveal|props|havoc)\b(?:\[([^\]]+)\])?\s*(.*)$`)
 	reLoop          = regexp.MustCompile(`^#(\d+)\s+(invariant|havoc)\b(?:\[([^\]]+)\])?\s*(.*)$`)
 )
 
@@ -86,10 +86,20 @@ func parseContractFile(path string, cs *ContractSet) error {
 	var cur *UnitSpec
 	var lastClause *Clause
 	var lastSrc *string
+	modelOf := map[*Clause]*UnitSpec{}
 	finishClause := func() error {
 		if lastClause != nil && lastSrc != nil {
 			src := strings.TrimSpace(*lastSrc)
 			lastClause.Src = src
+			if mu := modelOf[lastClause]; mu != nil {
+				e, err := parseCx(src)
+				if err != nil {
+					return fmt.Errorf("%s:%d: %v", path, lastClause.Line, err)
+				}
+				mu.ModelDef = e
+				lastClause, lastSrc = nil, nil
+				return nil
+			}
 			if lastClause.Kind == "modifies" {
 				for _, part := range splitTop(src) {
 					e, err := parseCx(part)
@@ -208,15 +218,17 @@ func parseContractFile(path string, cs *ContractSet) error {
 				u.Params = append(u.Params, f[0])
 				u.ModelPT = append(u.ModelPT, f[1])
 			}
-			e, err := parseCx(m[3])
-			if err != nil {
-				return fmt.Errorf("%s:%d: %v", path, lineNo, err)
+			if strings.HasPrefix(t, "pred") {
+				u.Flags["pred"] = true
 			}
-			u.ModelDef = e
 			if err := add(u); err != nil {
 				return err
 			}
 			cur = nil
+			c := &Clause{Kind: "modeldef", Line: lineNo}
+			src := m[3]
+			lastClause, lastSrc = c, &src
+			modelOf[c] = u
 			continue
 		}
 		if m := reClause.FindStringSubmatch(t); m != nil {
